@@ -5,7 +5,7 @@
 (*      async:[rpc..]}, events:[..]} .. ]                                  *)
 (* one trace per real generator run + import of the emitted library:       *)
 (*   validate{ok}                      the generator accepted / rejected   *)
-(*   selective{types,rpcs,svcs}        hook: the address allow-list        *)
+(*   selective{listed,types,rpcs,svcs} hook: methods + address allow-list  *)
 (*   built{types,public,internal,underscored,svcs,clients}                 *)
 (*                                     hook: Proto / Service / Method      *)
 (*   types{types}                      classes found in the imported lib   *)
@@ -58,7 +58,7 @@ TValidate == /\ AtEvent("validate") /\ phase = "validate"
 \* the specification's own traversal; no event is consumed
 TStep == tid <= N /\ (StepReach \/ StepUp) /\ UNCHANGED <<tid, l, seen, called>>
 TSelective == /\ AtEvent("selective") /\ phase = "closed"
-              /\ IF /\ Sel = "prune" /\ seen = {}
+              /\ IF /\ Sel = "prune" /\ seen = {} /\ S(Ev[l].listed) = Listed
                     /\ TypesOK(S(Ev[l].types)) /\ S(Ev[l].rpcs) = KeptRpcs /\ SvcsOK(S(Ev[l].svcs))
                  THEN Observed("selective") ELSE Reject
 TBuilt == /\ AtEvent("built") /\ phase = "closed"
